@@ -506,6 +506,17 @@ def handle (j : Json) : Except String Json := do
       | some (_, o) => some (Json.arr #[Json.str (toString st.name), Json.str (clsName (Evo.cmp (Evo.depth st.ty + Evo.depth o.ty) st.ty o.ty))])
       | none => none
     pure (Json.mkObj [("verdict", Json.str (sevName (Evo.protoVerdict env newS oldS))), ("classes", Json.arr classes.toArray)])
+  | "evo_conv" =>
+    -- the value the generated C++ produces when it reads a previous version's value (reading = true) or
+    -- writes a latest-version value for a previous version (reading = false)
+    let reading ← (← j.getObjVal? "reading").getBool?
+    let src ← etyOfJson (← j.getObjVal? "src")
+    let dst ← etyOfJson (← j.getObjVal? "dst")
+    let v ← valOfJson (← j.getObjVal? "val")
+    match Evo.conv reading (Evo.depth src + Evo.depth dst + 2) src dst v with
+    | .ok x => pure (Json.mkObj [("ok", valToJson x)])
+    | .err m => pure (Json.mkObj [("err", Json.str m)])
+    | .unsupported m => pure (Json.mkObj [("unsupported", Json.str m)])
   | "narrow" =>
     let b ← jNat (← j.getObjVal? "bits")
     pure (Json.mkObj [("f32", jn (Json.narrow b))])
